@@ -25,6 +25,7 @@ func (e *Engine) verify(fn *ssa.Function, ctr *Contract, opts *genOptions) *gen 
 	if opts != nil {
 		g1.options = *opts
 	}
+	safety := g1.options.safety
 	g1.run()
 	loopMod := map[*ssa.BasicBlock]map[string]bool{}
 	for _, li := range g1.loopList {
@@ -45,6 +46,7 @@ func (e *Engine) verify(fn *ssa.Function, ctr *Contract, opts *genOptions) *gen 
 	if opts != nil {
 		g2.options = *opts
 	}
+	g2.options.safety = safety
 	g2.knownSorts = g1.heapSort
 	g2.run()
 	return g2
